@@ -109,8 +109,10 @@ Proof. exact code_average_is_mean. Qed.
 Print Assumptions C18_code_average_is_mean.
 
 (* ---------------------------------------------------------------- density *)
+(* m_density is the Molecule / Sequence object's own .density attribute (self.density = H.density) *)
 Theorem C18_density_is_mass_over_volume : forall E name M0 vol q m, molecule_of E name M0 vol q = FOk m ->
   exists dl dn, f_density (m_labile m) = Some dl /\ f_density (m_natural m) = Some dn /\
+    m_density m = Some dn /\
     (0 < vol -> dl == TEN24 * (f_mass E (m_labile m) / NA) / vol /\
                 dn == TEN24 * (m_mass m / NA) / vol) /\
     (vol <= 0 -> dl == 0 /\ dn == 0).
@@ -120,6 +122,7 @@ Print Assumptions C18_density_is_mass_over_volume.
 Theorem C18_sequence_density : forall E tab name s sm, sequence_of E tab name s = FOk sm ->
   let m := s_mol sm in
   exists dl dn, f_density (m_labile m) = Some dl /\ f_density (m_natural m) = Some dn /\
+    m_density m = Some dn /\
     (0 < m_vol m -> dl == TEN24 * (f_mass E (m_labile m) / NA) / m_vol m /\
                     dn == TEN24 * (m_mass m / NA) / m_vol m) /\
     (m_vol m <= 0 -> dl == 0 /\ dn == 0).
